@@ -243,7 +243,9 @@ func (m *monC14) AfterBlock(w *World) {
 	cctx, _ := ctx.CacheContext()
 	next := MakeHeader(w.Hdr.Height+1, w.Now.Add(1e9), w.Log[len(w.Log)-1].AppHash)
 	cctx = cctx.WithBlockHeader(next).WithEventManager(sdk.NewEventManager())
-	if p, _ := safely(func() { w.Ref.App.BeginBlocker(cctx, abci.RequestBeginBlock{Header: next, LastCommitInfo: LastCommit()}) }); p != "" {
+	if p, _ := safely(func() {
+		w.Ref.App.BeginBlocker(cctx, abci.RequestBeginBlock{Header: next, LastCommitInfo: LastCommit()})
+	}); p != "" {
 		w.Violate("C14", "C14/next-beginblock-would-panic/"+haltSite(p)+haltCause(w), "state after block %d: BeginBlock of the next height panics: %s", w.Hdr.Height, trunc(p, 200))
 	}
 	if p, _ := safely(func() { w.Ref.App.EndBlocker(cctx, abci.RequestEndBlock{Height: next.Height}) }); p != "" {
